@@ -79,7 +79,7 @@ theorem worldOk_setType_all (D : SlabID → DigestFn 4) (w : World) (p : SlabID)
     (cx' : Ctx) (H : WorldOk D w cx.ctr) (hh : HandleOk w p) (h : w.setType p ty cx = .ok (w', cx')) :
     WorldOk D w' cx'.ctr ∧ cx.ctr ≤ cx'.ctr ∧
       (∃ c c', w.cont? p = some c ∧ w'.cont? p = some c' ∧ c'.storedElems = c.storedElems ∧ c'.vid = c.vid) ∧
-      HandleOk w' p ∧ SigFrame w w' p ∧ HandlesKept w w' ∧ AncFrame w w' p (Moved none none) := by
+      HandleOk w' p ∧ ContsSig w w' ∧ HandlesKept w w' ∧ AncFrame w w' p (Moved none none) := by
   obtain ⟨rank0, R0⟩ := H
   obtain ⟨g1, g2, g3, g4, g5, _⟩ := setType_okA R0 hh h
   obtain ⟨k1, k2⟩ := all_of_opFrame R0 (fun r Hr => (setType_okA Hr hh h).2.2.2.2.2)
@@ -157,12 +157,13 @@ theorem worldOk'_setType_all (D : SlabID → DigestFn 4) (w : World) (p : SlabID
     (cx' : Ctx) (H : WorldOk' D w cx.ctr) (hh : HandleOk w p) (h : w.setType p ty cx = .ok (w', cx')) :
     WorldOk' D w' cx'.ctr ∧ cx.ctr ≤ cx'.ctr ∧
       (∃ c c', w.cont? p = some c ∧ w'.cont? p = some c' ∧ c'.storedElems = c.storedElems ∧ c'.vid = c.vid) ∧
-      HandleOk w' p ∧ SigFrame w w' p ∧ HandlesKept w w' ∧ AncFrame w w' p (Moved none none) := by
+      HandleOk w' p ∧ ContsSig w w' ∧ HandlesKept w w' ∧ AncFrame w w' p (Moved none none) := by
   obtain ⟨H0, S⟩ := H.down
   obtain ⟨w0', h0, S'⟩ := sim_setType S h
   obtain ⟨g1, g2, ⟨c, c', g3, g4, g5, g6⟩, g7, g8, k1, k2⟩ :=
     worldOk_setType_all D _ p ty cx _ cx' H0 (S.handleOk_down hh) h0
   exact ⟨WorldOk'.up g1 S' g2, g2, ⟨c, c', by rw [← S.cont?]; exact g3, by rw [← S'.cont?]; exact g4, g5, g6⟩,
-    S'.handleOk_up g7, S.sigFrame S' g8, S.handlesKept S' k1, S.ancFrame S' k2⟩
+    S'.handleOk_up g7, ⟨by rw [← S'.T, g8.T, S.T], fun q => by rw [← S'.cont?, g8.sig q, S.cont?]⟩,
+    S.handlesKept S' k1, S.ancFrame S' k2⟩
 
 end Atree.C10W
